@@ -747,12 +747,20 @@ impl Scenario for MapOps2 {
             }
         };
         let two_inputs = matches!(op, Op2::MergeBTree | Op2::MergeOrd);
+        // a plain dependant of the merge output (a copy of the map): it must follow every change of the merge
+        let down: Option<Incr<B<SV>>> = match &out {
+            Out2::B(n, _) => Some(n.map(|m: &B<SV>| m.clone())),
+            Out2::O(n, _) => Some(n.map(|m: &OrdMap<u8, SV>| m.to_b())),
+            Out2::P(..) => None,
+        };
         struct Keep {
             state: IncrState,
             inp: In2,
             out: Out2,
+            down: Option<Incr<B<SV>>>,
+            down_obs: Option<Observer<B<SV>>>,
         }
-        let mut keep = ManuallyDrop::new(Keep { state, inp, out });
+        let mut keep = ManuallyDrop::new(Keep { state, inp, out, down, down_obs: None });
         let r = catch(|| {
             let mut dirty = false;
             let mut seen: Option<[B<SV>; 2]> = None;
@@ -823,6 +831,7 @@ impl Scenario for MapOps2 {
                             Out2::O(n, o) => *o = Some(n.observe()),
                             Out2::P(n, o) => *o = Some(n.observe()),
                         }
+                        keep.down_obs = keep.down.as_ref().map(|d| d.observe());
                         dirty = true;
                         if seen.is_some() {
                             cover("operator-observed-again");
@@ -834,6 +843,7 @@ impl Scenario for MapOps2 {
                             Out2::O(_, o) => *o = None,
                             Out2::P(_, o) => *o = None,
                         }
+                        keep.down_obs = None;
                         dirty = true;
                     }
                     A::Stabilise => {
@@ -869,6 +879,9 @@ impl Scenario for MapOps2 {
                                     }
                                 }
                                 check_map("merge", &got, &want);
+                                if let Some(d) = &keep.down_obs {
+                                    check_map("dependant of the merge output", &d.value(), &want);
+                                }
                             }
                             Out2::O(_, o) => {
                                 let got = o.as_ref().unwrap().value().to_b();
@@ -879,6 +892,9 @@ impl Scenario for MapOps2 {
                                     }
                                 }
                                 check_map("merge", &got, &want);
+                                if let Some(d) = &keep.down_obs {
+                                    check_map("dependant of the merge output", &d.value(), &want);
+                                }
                             }
                             Out2::P(_, o) => {
                                 let (gl, gr) = o.as_ref().unwrap().value();
